@@ -25,21 +25,25 @@ Notation runq := (run g gens apply quiet cstore cget cset interfere).
 Definition user_raise (o : outcome cstore) : Prop :=
   exists f pos kw s, o = Raised cstore (EUser f) s /\ raises f pos kw = true.
 
-Lemma step_quiet s : stepr s = stepq s \/ (user_raise (stepr s) /\ exists s', stepq s = Running cstore s').
+Definition ostate (o : outcome cstore) : st cstore :=
+  match o with Running _ s | Finished _ _ s | Raised _ _ s | Stuck _ _ s => s end.
+
+Lemma step_quiet s : stepr s = stepq s \/
+  (user_raise (stepr s) /\ sto cstore (ostate (stepr s)) = sto cstore s /\ exists s', stepq s = Running cstore s').
 Proof.
   unfold step. destruct (cmds cstore s) as [|c K]; [left; reflexivity|].
   destruct c as [|n it| | |r|w key|i|n k rs]; try (left; reflexivity).
   destruct r as [i|i| | |rs|f pos kw]; try (left; reflexivity).
   destruct (stack cstore s) as [|x S1]; [left; reflexivity|].
   unfold quiet at 1. destruct (raises f pos kw) eqn:E; [|left; reflexivity].
-  right. split; [exists f, pos, kw; eexists; split; [reflexivity|exact E]|eexists; reflexivity].
+  right. split; [exists f, pos, kw; eexists; split; [reflexivity|exact E]|split; [reflexivity|eexists; reflexivity]].
 Qed.
 
 Theorem run_quiet : forall fuel s v s',
   runq fuel s = Finished cstore v s' -> runr fuel s = Finished cstore v s' \/ user_raise (runr fuel s).
 Proof.
   induction fuel as [|fuel IH]; intros s v s' H; [discriminate|]. cbn [run] in *.
-  destruct (step_quiet s) as [E|[Hu [s1 E1]]].
+  destruct (step_quiet s) as [E|[Hu [_ [s1 E1]]]].
   - rewrite E. destruct (stepq s) as [s1| | |]; [apply IH, H|left; exact H|discriminate|discriminate].
   - right. destruct Hu as (f & pos & kw & s2 & Hr & Hb). rewrite Hr. exists f, pos, kw, s2. auto.
 Qed.
@@ -53,7 +57,7 @@ Theorem run_quiet_gen : forall fuel s,
   end.
 Proof.
   induction fuel as [|fuel IH]; intros s; cbn [run]; [left; reflexivity|].
-  destruct (step_quiet s) as [E|[Hu [s1 E1]]].
+  destruct (step_quiet s) as [E|[Hu [_ [s1 E1]]]].
   - rewrite E. destruct (stepq s) as [s1|v s1|e s1|why s1]; [apply IH|left; reflexivity|exact I|exact I].
   - rewrite E1. destruct Hu as (f & pos & kw & s2 & Hr & Hb). rewrite Hr.
     assert (U : user_raise (Raised cstore (EUser f) s2)) by (exists f, pos, kw, s2; auto).
@@ -89,4 +93,61 @@ Proof.
         destruct (stepq s) as [s2| | |]; [apply IH; [lia|exact E]|exact E|exact E|exact E]. }
       rewrite (Hq k (Nat.le_refl k)) in Ek. discriminate.
 Qed.
+
+(* the store a run under [raises] is left with - whatever its outcome - is a store the failure-free run passes through *)
+Theorem store_of_any_run_is_quiet : forall k s, exists j, sto cstore (ostate (runr k s)) = sto cstore (ostate (runq j s)).
+Proof.
+  induction k as [|k IH]; intros s; [exists 0; reflexivity|]. cbn [run].
+  destruct (step_quiet s) as [E|[Hu [Hs _]]].
+  - rewrite E. destruct (stepq s) as [s1|v s1|e s1|why s1] eqn:Eq.
+    + destruct (IH s1) as [j Hj]. exists (S j). cbn [run]. rewrite Eq. exact Hj.
+    + exists 1. cbn [run]. rewrite Eq. reflexivity.
+    + exists 1. cbn [run]. rewrite Eq. reflexivity.
+    + exists 1. cbn [run]. rewrite Eq. reflexivity.
+  - exists 0. cbn [run ostate]. destruct Hu as (f & pos & kw & s2 & Hr & _). rewrite Hr in *. cbn [ostate] in *. exact Hs.
+Qed.
 End RaiseDir.
+
+(* ---------- what every step does to the store: nothing, or the cache accesses of one generator ---------- *)
+Section StorePreservation.
+Variable g : pgraph.
+Variable gens : which -> nat -> option gen.
+Variable apply : string -> list val -> list (string * val) -> val.
+Variable raises : string -> list val -> list (string * val) -> bool.
+Variable cstore : Type.
+Variable cget : cstore -> nat -> sval -> option sval * cstore.
+Variable cset : cstore -> nat -> sval -> sval -> cstore.
+Variable interfere : cstore -> cstore.
+Variable Q : cstore -> Prop.
+Hypothesis Q_settle : forall gn σ, Q σ -> Q (snd (settle cstore cget cset interfere gn σ)).
+
+Lemma step_keeps s : Q (sto cstore s) -> Q (sto cstore (ostate cstore (step g gens apply raises cstore cget cset interfere s))).
+Proof.
+  intros H. unfold step. destruct (cmds cstore s) as [|c K]; [exact H|].
+  destruct c as [|n it| | |r|w key|i|n k rs].
+  2: { destruct (stack cstore s) as [|v S1]; [exact H|].
+       pose proof (Q_settle (it v) (sto cstore s) H) as Hq.
+       destruct (settle cstore cget cset interfere (it v) (sto cstore s)) as [gn σ]. cbn [snd] in Hq.
+       destruct gn; cbn [ostate sto]; try exact Hq.
+       destruct (evict_all _ _ _) as [[h' c']|]; exact Hq. }
+  all: repeat (first [exact H | match goal with |- context [match ?x with _ => _ end] => destruct x end]).
+Qed.
+
+Lemma run_add : forall j m s,
+  run g gens apply raises cstore cget cset interfere (j + m) s =
+  match run g gens apply raises cstore cget cset interfere j s with
+  | Running _ s' => run g gens apply raises cstore cget cset interfere m s'
+  | o => o
+  end.
+Proof.
+  induction j as [|j IH]; intros m s; [reflexivity|]. cbn [run plus].
+  destruct (step g gens apply raises cstore cget cset interfere s) as [s1| | |]; [apply IH|reflexivity|reflexivity|reflexivity].
+Qed.
+
+Theorem run_keeps : forall k s, Q (sto cstore s) -> Q (sto cstore (ostate cstore (run g gens apply raises cstore cget cset interfere k s))).
+Proof.
+  induction k as [|k IH]; intros s H; [exact H|]. cbn [run].
+  pose proof (step_keeps s H) as Hs.
+  destruct (step g gens apply raises cstore cget cset interfere s) as [s1| | |]; cbn [ostate] in *; [apply IH, Hs|exact Hs|exact Hs|exact Hs].
+Qed.
+End StorePreservation.
